@@ -608,7 +608,7 @@ fn gen_packet_raw(rng: &mut Rng, sw: &Swarm, t: u8) -> Ast {
         }
         9 => {
             let n = if rng.chance(1, 150) && !tiny() {
-                *rng.pick(&[255usize, 256, 257, 1000])
+                *rng.pick(&[255usize, 256, 257, 1000, 65_535, 65_536, 65_537, 70_000])
             } else if rng.chance(1, 40) && !tiny() {
                 // code lists that put the remaining length on either side of 127/128
                 rng.urange(120, 131)
@@ -636,7 +636,7 @@ fn gen_packet_raw(rng: &mut Rng, sw: &Swarm, t: u8) -> Ast {
         11 => {
             let codes = if v5 {
                 let n = if rng.chance(1, 150) && !tiny() {
-                    *rng.pick(&[255usize, 256, 257])
+                    *rng.pick(&[255usize, 256, 257, 65_535, 65_536, 65_537, 70_000])
                 } else if rng.chance(1, 40) && !tiny() {
                     rng.urange(118, 131)
                 } else {
